@@ -3,6 +3,8 @@
 cd "$(dirname "$0")/.."
 for d in seeded/*/; do
   id=$(basename "$d"); prop=${id%%-*}
+  # (a seed whose demonstrated violation belongs to another property than the one its author was given: meta.json says)
+  [ -f "$d/meta.json" ] && prop=$(/venv/bin/python -c "import json,sys; print(json.load(open(sys.argv[1])).get('property') or sys.argv[2])" "$d/meta.json" "$prop" 2>/dev/null | tail -1)
   tmp=$(mktemp -d /dev/shm/seedsrc.XXXX); cp "$d"/patch.diff "$d"/demo.py "$tmp"/; [ -f "$d/notes.md" ] && cp "$d/notes.md" "$tmp"/
   /venv/bin/python tools/eval_seeded.py "$tmp" "$prop" "$id" --skip-suite 2>&1 | /venv/bin/python -c "
 import sys,json
